@@ -76,6 +76,8 @@ def phase_of(op, box_root=None):
     """protocol phase of one shim op, from its kind and path."""
     p = op["path"] or ""
     k = op["kind"]
+    if k == "stdio":
+        return "log-line"
     base = os.path.basename(p)
     if base == "Breadlog.yaml":
         return "config-" + ("open" if k.startswith("open") else k)
@@ -110,14 +112,14 @@ def foreign_tmpdir(box):
     return d
 
 
-def clean_reference(built, proj, check=False, xdev=False):
+def clean_reference(built, proj, check=False, xdev=False, stdio_ops=False):
     """Run once without injection; returns (ops, after_files, rec, expected_offsets per file)."""
     import shutil
     with core.Box(tag="ref") as box:
         cfg = proj.materialise(box)
         td = foreign_tmpdir(box) if xdev else None
         try:
-            rec = core.run_breadlog(built, box, cfg, check=check, shim=True, tmpdir=td)
+            rec = core.run_breadlog(built, box, cfg, check=check, shim=True, tmpdir=td, stdio_ops=stdio_ops)
         finally:
             if td:
                 shutil.rmtree(td, ignore_errors=True)
